@@ -43,6 +43,16 @@ def main():
         s = surface(rng)
         operations.insert_knot(s, [0.4, 0.6], [1, 2])
         out['surf'] = s.ctrlpts
+    elif scenario == 'samplesize':
+        lo, hi = seed, nproc          # argv[3], argv[4] reused as the range of sample sizes
+        c = curve(random.Random(1))
+        bad = []
+        for n in range(lo, hi + 1):
+            c.sample_size = n
+            m = len(c.evalpts)
+            if m != n or c.sample_size != n:
+                bad.append([n, m])
+        out['bad'] = bad
     elif scenario == 'tessellate':
         from geomdl import multi
         surfs = [surface(rng) for _ in range(3)]
@@ -59,7 +69,7 @@ def main():
         from geomdl import operations
         s1 = operations.translate(s0, [0, 0, 3.0])
         vol = construct.construct_volume('w', s0, s1, degree=1)
-        grid, filled = voxelize.voxelize(vol, grid_size=(4, 4, 4), num_procs=nproc)
+        grid, filled = voxelize.voxelize(vol, grid_size=(4, 4, 4), num_procs=nproc, tol=0.26)
         out['filled'] = list(filled); out['n'] = len(grid)
     print(json.dumps(out))
 
